@@ -115,25 +115,21 @@ def main(argv=None):
     open_known = [k for k in known if k.get("status") == "open"]
     known_lines, new_violations = [], []
     match = getattr(mod, "match_known", None)
-    matched_ids = set()
+    known_hits = [v for r in results for v in r.get("known_hits", [])]
+    matched_ids = {v["known_id"] for v in known_hits}
     for v in violations:
         kid = match(v, open_known) if match else None
         if kid is not None:
             matched_ids.add(kid)
+            known_hits.append(dict(v, known_id=kid))
         else:
             new_violations.append(v)
-    if hasattr(mod, "known_status"):
-        # the check module replays each open finding's witness itself and tells us whether it still fails
-        for k in open_known:
-            st = mod.known_status(k)
-            if st == "fails":
-                known_lines.append(f"KNOWN-FINDING: property={prop} {k['id']}: {k['what']}")
-            else:
-                known_lines.append(f"KNOWN-FINDING-STALE: property={prop} {k['id']} no longer fails ({st})")
-    else:
-        for k in open_known:
-            if k["id"] in matched_ids:
-                known_lines.append(f"KNOWN-FINDING: property={prop} {k['id']}: {k['what']}")
+    for k in open_known:
+        if k["id"] in matched_ids:
+            n = len([v for v in known_hits if v.get("known_id") == k["id"]])
+            known_lines.append(f"KNOWN-FINDING: property={prop} {k['id']}: {k['what']} [still reproduced on {n} work item(s)/path(s) of this run]")
+        elif not a.only:
+            known_lines.append(f"KNOWN-FINDING-STALE property={prop} {k['id']}: no longer reproduced by this run (remove it from known_findings.json if it was fixed)")
 
     # ---- replays
     replay_paths = []
@@ -175,7 +171,7 @@ def main(argv=None):
             "functions_encoded": functions or meta.get("functions", []),
             "bounds": meta.get("bounds", {}).get(a.tier, meta.get("bounds", {})),
             "covers": covers, "cuts": cuts,
-            "inconclusive": inconclusive[:5], "known_findings": known_lines,
+            "inconclusive": inconclusive[:5], "known_findings": known_lines, "known_finding_hits": len(known_hits),
             "engine": "SYMX: real source of $VERIF_REPO/score_analysis re-read and executed over a z3-backed NumPy model; z3 " + _z3v(),
         },
         "assumptions": meta.get("assumptions", []) + [
@@ -213,7 +209,8 @@ def main(argv=None):
     if agg["obligations"] == 0 or agg["paths"] == 0:
         print(f"INCONCLUSIVE property={prop} reason=vacuous-run")
         return EXIT_INCONCLUSIVE
-    print(f"OK property={prop}: all {agg['obligations']} obligations discharged on {agg['paths']} paths")
+    extra = f" (apart from {len(known_hits)} hit(s) of listed known findings)" if known_hits else ""
+    print(f"OK property={prop}: all {agg['obligations']} obligations discharged on {agg['paths']} paths{extra}")
     return EXIT_OK
 
 
